@@ -47,5 +47,22 @@ def scaledScatter (X : Fin N → Fin D → α) (y : Fin N → Int) (classes : Li
 def wccnFit (chol : (n : Nat) → (Fin n → Fin n → α) → Fin n → Fin n → α) (X : Fin N → Fin D → α)
     (y : Fin N → Int) (classes : List Int) : Proj D α :=
   { weights := chol D (LinAlg.inv D (scaledScatter X y classes)), subtract := fun _ => 0 }
+
+/-! #### Exec form: every intermediate array is evaluated once (an ndarray), as NumPy / Dask do -/
+structure ProjV (D : Nat) (α : Type) where
+  weights : Vector (Vector α D) D
+  subtract : Vector α D
+def ProjV.toProj (p : ProjV D α) : Proj D α := { weights := fun a b => p.weights[a][b], subtract := fun a => p.subtract[a] }
+def whitenFitV (chol : (n : Nat) → (Fin n → Fin n → α) → Fin n → Fin n → α) (X : Fin N → Fin D → α) : ProjV D α :=
+  let mean : Vector α D := Vector.ofFn (colMean X)
+  let cov : Vector (Vector α D) D := Vector.ofFn fun a => Vector.ofFn fun b =>
+    sumFin N (fun n => (X n a - mean[a]) * (X n b - mean[b])) / (Transc.ofNat N - 1)
+  let inv : Vector (Vector α D) D := Vector.ofFn fun a => Vector.ofFn fun b => LinAlg.inv D (fun i j => cov[i][j]) a b
+  { weights := Vector.ofFn fun a => Vector.ofFn fun b => chol D (fun i j => inv[i][j]) a b, subtract := mean }
+def wccnFitV (chol : (n : Nat) → (Fin n → Fin n → α) → Fin n → Fin n → α) (X : Fin N → Fin D → α)
+    (y : Fin N → Int) (classes : List Int) : ProjV D α :=
+  let sw : Vector (Vector α D) D := Vector.ofFn fun a => Vector.ofFn fun b => scaledScatter X y classes a b
+  let inv : Vector (Vector α D) D := Vector.ofFn fun a => Vector.ofFn fun b => LinAlg.inv D (fun i j => sw[i][j]) a b
+  { weights := Vector.ofFn fun a => Vector.ofFn fun b => chol D (fun i j => inv[i][j]) a b, subtract := Vector.ofFn fun _ => 0 }
 end
 end BobEM.Lin
